@@ -442,9 +442,11 @@ Proof.
 Qed.
 Lemma encode_np p n : n <= VI_MAX -> np (snd (encode p n)).
 Proof.
-  intros H. destruct p; cbn [encode]; unfold w_u16;
+  intros H. destruct p; cbn [encode]; try exact I;
+    (apply w_then_np; [apply w_bytes_np|apply w_then_np; [now apply w_varlen_np|]]);
+    try apply encode_connect_np; unfold w_u16;
     repeat apply w_then_np;
-    auto using w_bytes_np, w_bytes16_np, w_varlen_np, w_sub_filters_np, w_unsub_filters_np, encode_connect_np.
+    auto using w_bytes_np, w_bytes16_np, w_sub_filters_np, w_unsub_filters_np.
 Qed.
 Lemma encode_publish_np p n : n <= VI_MAX -> np (snd (encode_publish p n)).
 Proof.
